@@ -113,6 +113,7 @@ class Acc(object):
         self.harness_errors = []
         self.extra = {}
         self.exhaustive = False
+        self.known = collections.Counter()
 
     def add(self, case, res, keep_sample=True):
         self.cases += 1
@@ -141,6 +142,7 @@ class Acc(object):
         self.nt |= o.nt
         self.labels.update(o.labels)
         self.excluded.update(o.excluded)
+        self.known.update(o.known)
         self.samples.extend(o.samples)
         for b, lst in o.failures.items():
             mine = self.failures.setdefault(b, [])
@@ -177,8 +179,28 @@ def run_case(prop, case, acc, keep_sample=True):
         return None
     finally:
         signal.alarm(0)
+    if res.failures:
+        # failures explained by a listed open finding are counted apart at once, so that they can never
+        # crowd a different violation out of the (bounded) per-bucket lists
+        known = _KNOWN.get("k")
+        if known is None:
+            known = _KNOWN["k"] = load_known()
+        keep = []
+        for b, dtl in res.failures:
+            try:
+                kf = attribute(prop, known, case, b, dtl)
+            except Exception:
+                kf = None
+            if kf:
+                acc.known[kf] += 1
+            else:
+                keep.append((b, dtl))
+        res.failures = keep
     acc.add(case, res, keep_sample)
     return res
+
+
+_KNOWN = {}
 
 
 def load_prop(pid):
@@ -230,18 +252,40 @@ def load_known():
         return json.load(f)
 
 
+def _fn(dotted):
+    modname, fn = dotted.rsplit(".", 1)
+    return getattr(importlib.import_module(modname), fn)
+
+
 def attribute(prop, known, case, bucket, detail):
-    """Return the id of the open known finding that explains this failure, or None."""
-    for ent in known.get("open", []):
-        if ent["property"] != prop.ID:
-            continue
-        modname, fn = ent["recogniser"].rsplit(".", 1)
-        rec = getattr(importlib.import_module(modname), fn)
+    """Return the id of the open known finding that explains this failure, or None.  An entry either names a
+    custom `recogniser(prop, case, bucket, detail)` or a `neutraliser(case) -> (case', applied)`: the failure
+    is attributed only if the case carries the finding's mark and the check passes on the neutralised case.
+    When no single finding explains it, the neutralisers of all marks present are applied together."""
+    entries = [e for e in known.get("open", []) if e["property"] == prop.ID]
+    marked = []
+    for ent in entries:
         try:
-            if rec(prop, case, bucket, detail):
-                return ent["id"]
+            if "recogniser" in ent:
+                if _fn(ent["recogniser"])(prop, case, bucket, detail):
+                    return ent["id"]
+            else:
+                neutral, applied = _fn(ent["neutraliser"])(case)
+                if applied:
+                    marked.append(ent)
+                    if not prop.check(neutral).failures:
+                        return ent["id"]
         except Exception:
             continue
+    if len(marked) > 1:
+        try:
+            neutral = case
+            for ent in marked:
+                neutral, _ = _fn(ent["neutraliser"])(neutral)
+            if not prop.check(neutral).failures:
+                return "+".join(e["id"] for e in marked)
+        except Exception:
+            pass
     return None
 
 
@@ -345,7 +389,7 @@ def main_check(pid, tier, seed, replay=None):
 
     # ---- triage failures ------------------------------------------------------------------
     violations = []
-    known_hits = collections.Counter()
+    known_hits = collections.Counter(acc.known)
     for path, b, case, detail in corpus_hits:
         kf = attribute(prop, known, case, b, detail)
         if kf:
@@ -389,7 +433,11 @@ def main_check(pid, tier, seed, replay=None):
                 continue
         violations.append((b, case, detail, None))
 
-    for kf, cnt in sorted(known_hits.items()):
+    single = collections.Counter()
+    for kf, cnt in known_hits.items():
+        for part in kf.split("+"):
+            single[part] += cnt
+    for kf, cnt in sorted(single.items()):
         what = [e["what"] for e in known["open"] if e["id"] == kf][0]
         print("KNOWN-FINDING: property=%s %s %s (met %d times)" % (prop.ID, kf, what, cnt))
 
